@@ -58,6 +58,7 @@ type params struct {
 	Predecl bool // D2 pre-registered with WithDownstreamDataIDs
 	F       int  // link failures (C04 thorough)
 	P       int
+	ReadInClose bool // the broker takes 1 s to answer the close request; the application reads a queued chunk meanwhile
 	HoldAck bool // the client's transport write stalls while an ack flush is under way, a second chunk is read meanwhile, then the link is cut
 	Stream  bool // a reader thread consumes while the broker keeps sending at intervals (early timer firing allowed: T=1)
 }
@@ -68,6 +69,9 @@ func (p params) name() string {
 	}
 	if p.HoldAck {
 		return fmt.Sprintf("holdack-%s/P%d", strings.Join(p.Seq, ""), p.P)
+	}
+	if p.ReadInClose {
+		return fmt.Sprintf("readinclose-%s/P%d", strings.Join(p.Seq, ""), p.P)
 	}
 	return fmt.Sprintf("%s/q%d/u%v/pre%v/F%d/P%d", strings.Join(p.Seq, ""), p.QoS, p.Unrel, p.Predecl, p.F, p.P)
 }
@@ -122,6 +126,9 @@ func scenarios(tier string) []vlib.Scenario {
 	add(params{Seq: []string{"a", "c"}, QoS: message.QoSReliable, P: 1, Stream: true})
 	add(params{Seq: []string{"a", "a", "b"}, QoS: message.QoSReliable, P: 1})
 	add(params{Seq: []string{"a", "c", "f"}, QoS: message.QoSReliable, P: 1})
+	// a read that overlaps Close: what it returns is acknowledged, or it fails
+	add(params{Seq: []string{"a", "c"}, QoS: message.QoSReliable, ReadInClose: true})
+	add(params{Seq: []string{"a", "c"}, QoS: message.QoSReliable, ReadInClose: true, P: 1})
 	// an acknowledgement whose write stalls and then fails with the link, while the application goes on reading
 	add(params{Seq: []string{"a", "c"}, QoS: message.QoSReliable, HoldAck: true})
 	add(params{Seq: []string{"a", "c"}, QoS: message.QoSReliable, HoldAck: true, P: 1})
@@ -319,6 +326,17 @@ func (w *world) readOne(kind string) {
 
 func (w *world) main() {
 	s := &sim.Script{Unreliable: w.p.Unrel}
+	if w.p.ReadInClose {
+		s.OnMessage = func(b *sim.Broker, c *sim.BConn, m message.Message) bool {
+			if _, ok := m.(*message.DownstreamCloseRequest); ok {
+				vsched.AfterFunc(time.Second, "h:slow-close-answer", func() {
+					vsched.Spawn("h:slow-close-answer", func() { b.HandleDefault(c, m) })
+				})
+				return true
+			}
+			return false
+		}
+	}
 	if err := w.Connect(s); err != nil {
 		return
 	}
@@ -335,6 +353,34 @@ func (w *world) main() {
 		return
 	}
 	w.Phase = "run"
+	if w.p.ReadInClose {
+		w.sendItem(0, w.p.Seq[0])
+		vsched.Quiesce()
+		w.readOne("chunk")
+		vsched.Sleep(150*time.Millisecond, "h:ack-flushed")
+		w.sendItem(1, w.p.Seq[1])
+		vsched.Quiesce()
+		var wg vsched.WaitGroup
+		wg.Add(1)
+		vsched.Go("h:closer", func() {
+			defer wg.Done()
+			cctx, ccancel := kit.Ctx(10 * time.Second)
+			w.closeErr = w.Downs[0].D.Close(cctx)
+			ccancel()
+		})
+		vsched.Sleep(500*time.Millisecond, "h:close-pending")
+		w.readOne("chunk")
+		wg.Wait()
+		w.Phase = "close"
+		vsched.Quiesce()
+		w.Phase = "connclose"
+		xctx, xcancel := kit.Ctx(5 * time.Second)
+		w.Conn.Close(xctx)
+		xcancel()
+		w.B.Stop()
+		w.Phase = "done"
+		return
+	}
 	if w.p.HoldAck {
 		w.sendItem(0, w.p.Seq[0])
 		vsched.Quiesce()
@@ -504,6 +550,9 @@ func (w *world) oracleC03(v *vlib.Verdict, dev bool) {
 		}
 		r := rc[i]
 		switch {
+		case s.valid && r.err != nil && w.p.ReadInClose && i == 1 && kit.ErrKind(r.err) == "stream-closed":
+			// the read overlapped Close: a stream that is being closed may refuse it
+			outcome = append(outcome, "C")
 		case s.valid && r.err != nil:
 			v.Fail("C03.deliver", fmt.Sprintf("valid-chunk-error/%s/dev=%v", kit.ErrKind(r.err), dev), "chunk #%d (seq %d, valid) was not returned: %v", i, s.seq, r.err)
 			outcome = append(outcome, "E")
